@@ -290,6 +290,9 @@ def documented_valid(kind, shape, picks):
     appendix A): a rejected path that matches one is a rejection of a documented declaration.  Deliberately small:
     only combinations the text states outright."""
     attrs = dict(p for p in picks if p is not None)
+    if isinstance(attrs.get("rank"), str) and re.match(r"^=\d+$", attrs["rank"]):
+        # +rank=1 (and `rank: 1` in an attrs mapping) gives the integer itself: the same documented use as rank(1)
+        attrs["rank"] = attrs["rank"][1:]
     if any(isinstance(v, str) and v.startswith("=") for v in attrs.values()):
         return None
     names = set(attrs)
